@@ -7,7 +7,7 @@
 From Coq Require Import ZArith NArith Bool List.
 From PcoreV Require Import Model.Base Model.Ty Model.Lattice Model.Infer Model.InferHist Model.InferAsk Proofs.LatticeBasics Proofs.LatticeRule Proofs.InferProofs Proofs.InferCommon Proofs.InferInst Proofs.InferHistProofs Proofs.InferAskProofs
   Proofs.LatticeTransSound Proofs.InferTransKeq Proofs.InferTransCommon Proofs.InferTransInst Proofs.InferTransDetailed
-  Model.InferRuntime Proofs.InferRuntimeProofs.
+  Model.InferRuntime Proofs.InferRuntimeProofs Model.InferRuntimeColl Proofs.InferRuntimeCollProofs Proofs.InferRuntimeCollSound Proofs.InferRuntimeCollComplete Proofs.InferRuntimeLocal.
 Import ListNotations.
 Open Scope Z_scope.
 
@@ -587,6 +587,33 @@ Theorem C04_runtime_array_inst_partial :
 Proof. intros gasg tname Hr Ht Hn vs t. apply (rt_elem_inst gasg tname Hr Ht). intros v _. apply Hn. Qed.
 Print Assumptions C04_runtime_array_inst_partial.
 
+(* WHERE EXACTLY transitivity is needed: only among the Go types of the ELEMENTS of the array (the fold keeps the type of
+   one element, or a type without reflect.Type; the one step that uses transitivity is "v is an instance of Runtime[x], and
+   Runtime[y] accepts Runtime[x] and replaces it" with v, x, y Go types of three elements: InferRuntimeLocal.rt_inst_mono_on).
+   This is the class the harness tags as the open finding (nonTransitive: x -> y -> z without x -> z among the Go types
+   inside the input), so outside the finding's input class the statement is a theorem.  Detailed inference and
+   "accepts the detailed type -> instance" need no transitivity at all (C04_runtime_coll_detailed_inst / _sound below). *)
+Theorem C04_runtime_array_inst_local_partial :
+  forall (gasg : N -> N -> bool) (tname : N -> str) (vs : list N) (t : rty),
+    (forall x, gasg x x = true) ->
+    (forall x y z, In x vs -> In y vs -> In z vs -> gasg x y = true -> gasg y z = true -> gasg x z = true) ->
+    (forall v, In v vs -> tname v <> []) ->
+    rt_elem gasg tname vs = Some t -> Forall (fun v => rt_inst gasg tname t v = true) vs.
+Proof. intros gasg tname vs t. exact (rt_elem_inst_on gasg tname vs t). Qed.
+Print Assumptions C04_runtime_array_inst_local_partial.
+
+(* non-vacuity: the oracle of the refutation below (not transitive: 1 -> 0 -> 2 without 1 -> 2) is transitive among the Go
+   types of [1; 0; 0] and of [0; 2; 2], whose inferred element types have every element as an instance; among those of
+   [0; 1; 2] it is not *)
+Example C04_runtime_array_local_nonvacuous :
+  let gasg := (fun x y => N.eqb x y || (N.eqb x 1 && N.eqb y 0) || (N.eqb x 0 && N.eqb y 1) || (N.eqb x 0 && N.eqb y 2))%N in
+  let tname := (fun x => [99; x]%N) in
+  let trans_on := fun vs => forallb (fun x => forallb (fun y => forallb (fun z => negb (gasg x y && gasg y z) || gasg x z) vs) vs) vs in
+  trans_on [1; 0; 0]%N = true /\ trans_on [0; 2; 2]%N = true /\ trans_on [0; 1; 2]%N = false /\
+  rt_elem gasg tname [1; 0; 0]%N = Some (rt_of tname 1%N) /\ forallb (rt_inst gasg tname (rt_of tname 1%N)) [1; 0; 0]%N = true /\
+  rt_elem gasg tname [0; 2; 2]%N = Some (rt_of tname 2%N) /\ forallb (rt_inst gasg tname (rt_of tname 2%N)) [0; 2; 2]%N = true.
+Proof. vm_compute. repeat split; reflexivity. Qed.
+
 (* open finding go-assignability-not-transitive: 0 = chan int, 1 = a named chan int, 2 = a named <-chan int; 1 -> 0, 0 -> 1,
    0 -> 2 and not 1 -> 2: [0; 1; 2] infers the element type Runtime['go', name of 2], of which 1 is no instance *)
 Example C04_go_assignability_not_transitive_refuted :
@@ -614,4 +641,84 @@ Example C04_runtime_same_name_nonvacuous :
   rt_asg gasg I A = true /\ rt_asg gasg I B = false /\ rt_inst gasg tname I 0%N = true /\ rt_inst gasg tname I 1%N = false /\
   rt_common gasg I B = rt_of_runtime s_go /\ rt_common gasg A I = I /\
   rt_asg gasg (mkR s_go [] (Some [120%N]) None) A = false /\ rt_inst gasg tname (mkR s_go [] (Some [120%N]) None) 0%N = false.
+Proof. vm_compute. repeat split; reflexivity. Qed.
+
+(* ---- Runtime types BELOW Array / Hash / Tuple / Variant / Optional (Model/InferRuntimeColl.v) ---- *)
+(* The lattice model has a Runtime type as the opaque TOther; this layer has the container constructors over the leaves
+   Runtime (rty), Integer, String, Undef with rc_inst = IsInstance, rc_asg = IsAssignable, rc_detailed = DetailedValueType,
+   ckeq = equality of hash keys (what UniqueTypes compares; the key of a Runtime type carries its reflect.Type since fix
+   403c461).  reflect's AssignableTo and String() are arbitrary functions. *)
+
+(* every value of the layer, at any depth of nesting, is an instance of its detailed type.  Reflexivity of AssignableTo
+   is all it takes: NO transitivity (detailed inference folds nothing: a Tuple of the element types, a Hash of the
+   Variants of the distinct key / value types) and NO condition on UniqueTypes (the member it keeps has the same hash key
+   as the one it drops, hence the same instances: C04_runtime_coll_key_equal).  rv_ok v: no hash inside v has only
+   non-empty strings as keys (its detailed type is a Struct, which is in the lattice model only). *)
+Theorem C04_runtime_coll_detailed_inst :
+  forall (gasg : N -> N -> bool) (tname : N -> str), (forall x, gasg x x = true) ->
+  forall v : rv, rv_ok v = true -> rc_inst gasg tname (rc_detailed tname v) v = true.
+Proof. exact rc_detailed_inst. Qed.
+Print Assumptions C04_runtime_coll_detailed_inst.
+
+(* two types of the layer with the same hash key have the same instances (no hypothesis on reflect) *)
+Theorem C04_runtime_coll_key_equal :
+  forall (gasg : N -> N -> bool) (tname : N -> str) (a b : ct) (v : rv),
+    ckeq a b = true -> rc_inst gasg tname a v = rc_inst gasg tname b v.
+Proof. exact ckeq_inst. Qed.
+Print Assumptions C04_runtime_coll_key_equal.
+
+(* a type of the layer that accepts the detailed type of a value has the value as an instance - NO hypothesis on reflect
+   (neither reflexivity nor transitivity of AssignableTo: the question put to reflect by IsAssignable on the detailed type
+   is the question IsInstance puts, C04_runtime_accepts_iff_instance, and the containers add none), NO condition on
+   UniqueTypes (InferRuntimeCollSound.fits: the detailed type up to equality of hash keys).  The converse has the two
+   exclusions of C04_detailed_complete_partial (undef-valued entries, Tuple slots beyond the size) and is direct check only
+   in this layer. *)
+Theorem C04_runtime_coll_detailed_sound :
+  forall (gasg : N -> N -> bool) (tname : N -> str) (T : ct) (v : rv),
+    rv_ok v = true -> rc_asg gasg T (rc_detailed tname v) = true -> rc_inst gasg tname T v = true.
+Proof. exact rc_detailed_sound. Qed.
+Print Assumptions C04_runtime_coll_detailed_sound.
+
+(* both directions: "T accepts the detailed type of v" and "v is an instance of T" are the same answer, for every type T
+   of the layer without a Tuple that has more element types than its minimum size (ccwf; `_partial` for this exclusion
+   only = open finding tuple-slots-beyond-size, refuted inside the layer below) and every value of the layer.  No
+   hypothesis on reflect.  The layer has no Struct, so the exclusion of undef-valued hash entries does not arise. *)
+Theorem C04_runtime_coll_accepts_iff_instance_partial :
+  forall (gasg : N -> N -> bool) (tname : N -> str) (T : ct) (v : rv),
+    ccwf T = true -> rv_ok v = true -> rc_asg gasg T (rc_detailed tname v) = rc_inst gasg tname T v.
+Proof. exact rc_accepts_iff_instance. Qed.
+Print Assumptions C04_runtime_coll_accepts_iff_instance_partial.
+
+Example C04_runtime_coll_tuple_slots_refuted :
+  exists (T : ct) (v : rv), rv_ok v = true /\ ccwf T = false /\
+    rc_inst (fun _ _ => true) (fun _ => [97%N]) T v = true /\
+    rc_asg (fun _ _ => true) T (rc_detailed (fun _ => [97%N]) v) = false.
+Proof.
+  exists (CTuple [CRt (rt_of_runtime s_go); CString] 1 2), (RVArr [RVGo 0%N]). vm_compute. repeat split; reflexivity.
+Qed.
+
+(* non-vacuity: Go types 0 and 1 print alike and reject each other (the input class of C04-m9), 2 is an interface 0
+   implements; a hash whose keys are hashes with the same entries in two orders (key-equal detailed types that are not
+   structurally equal: UniqueTypes keeps the first) and whose values are wrapped Go values of the two like-named types *)
+Example C04_runtime_coll_nonvacuous :
+  let gasg := (fun x y => N.eqb x y || (N.eqb x 0 && N.eqb y 2))%N in
+  let tname := (fun x => if N.eqb x 2 then [73] else [69])%N in
+  let A := rt_of tname 0%N in let B := rt_of tname 1%N in
+  let k1 := RVHash [(RVInt 1, RVGo 0%N); (RVInt 2, RVStr [120%N])] in
+  let k2 := RVHash [(RVInt 2, RVStr [120%N]); (RVInt 1, RVGo 0%N)] in
+  let v := RVHash [(k1, RVArr [RVGo 0%N; RVGo 1%N]); (k2, RVGo 1%N); (RVInt 3, RVArr [])] in
+  let K1 := CHash (CVariant [CInt 1 1; CInt 2 2]) (CVariant [CRt A; CStrVal [120%N]]) 2 2 in
+  rv_ok v = true /\
+  ckeq (rc_detailed tname k1) (rc_detailed tname k2) = true /\ rc_detailed tname k1 = K1 /\
+  rc_detailed tname v = CHash (CVariant [K1; CInt 3 3]) (CVariant [CTuple [CRt A; CRt B] 2 2; CRt B; CArr CUnit 0 0]) 3 3 /\
+  rc_inst gasg tname (rc_detailed tname v) v = true /\
+  rc_inst gasg tname (CArr (CRt A) 0 5) (RVArr [RVGo 0%N; RVGo 1%N]) = false /\
+  rc_inst gasg tname (CArr (CRt (mkR s_go (tname 2%N) None (Some 2%N))) 0 5) (RVArr [RVGo 0%N; RVGo 0%N]) = true /\
+  rc_asg gasg (CArr (CRt (mkR s_go (tname 2%N) None (Some 2%N))) 0 5) (rc_detailed tname (RVArr [RVGo 0%N; RVGo 0%N])) = true /\
+  rc_asg gasg (CArr (CRt A) 0 5) (rc_detailed tname (RVArr [RVGo 0%N; RVGo 1%N])) = false /\
+  (let T := CTuple [CHash CAny (CVariant [CArr (CRt A) 0 1; CRt B; CArr (CRt B) 0 0]) 3 3] 1 1 in
+   ccwf T = true /\ rc_inst gasg tname T (RVArr [v]) = false /\ rc_asg gasg T (rc_detailed tname (RVArr [v])) = false) /\
+  (let T := CHash (CVariant [CHash (CInt 0 9) CAny 0 5; CInt 0 9]) (COptional (CVariant [CArr (CRt (rt_of_runtime s_go)) 0 2; CRt B])) 1 3 in
+   rc_asg gasg T (rc_detailed tname v) = true /\ rc_inst gasg tname T v = true) /\
+  rv_ok (RVHash [(RVStr [97%N], RVGo 0%N)]) = false.
 Proof. vm_compute. repeat split; reflexivity. Qed.
